@@ -51,7 +51,9 @@ var sigMu sync.Mutex
 
 var alphabet = []string{"", "0", "1", "-1", "2", "a", "k", "*", "(1", "nx", "xx", "ch", "incr", "ex", "px",
 	"limit", "byscore", "withscores", "count", "rank", "maxlen", "minid", "left", "right",
-	"~", "=", "5-1", "9223372036854775807", "-9223372036854775808", "1e400", "nan", "\x00", "get", "9223372036854775808", "18446744073709551615"}
+	"~", "=", "5-1", "9223372036854775807", "-9223372036854775808", "1e400", "nan", "\x00", "get", "9223372036854775808", "18446744073709551615",
+	// large but accepted magnitudes (a count or a size that is validated and then used to allocate)
+	"4611686018427387903", "17592186044416"}
 
 // per-command option words used beyond arity 3
 var optionWords = map[string][]string{
